@@ -116,8 +116,10 @@ GeomC12(arcs) == [shape: IF arcs THEN C12Shapes ELSE {1,2,3,4,5,6}, view: C12Vie
 Mk(st, g) == [shape |-> g.shape, view |-> g.view, cs |-> 0, fill |-> st.fill, stroke |-> st.stroke, width |-> st.width, cap |-> st.cap,
               join |-> st.join, dash |-> st.dash, off |-> st.off, rule |-> st.rule, img |-> st.img, z |-> 0]
 RawDraws == [shape: IF Mode = "rande" THEN (1..11) \cup {21, 22, 23} ELSE 1..11,      \* "rande": with the rotated ellipses (small integer resolutions)
-             view: {1,2,3,4,5,6,8}, cs: 0..3, fill: {"none","red","green","grey","black","ggrey","tbrown","rgrey"}, stroke: {"none","none","blue"},
-             width: {1,2}, cap: {0}, join: {2,3}, dash: {0}, off: {0}, rule: 0..3, img: {0},
+             view: {1,2,3,4,5,6,8}, cs: 0..3, fill: {"none","red","green","grey","black","ggrey","tbrown","rgrey"}, stroke: IF Mode = "randd" THEN {"blue"} ELSE {"none","none","blue"},
+             \* "randd": dashed strokes (their region is free in the frame; what they add is the law that a render leaves the
+             \* canvas -- its dash arrays included -- as it found it: the second render and the re-recorded canvas are compared)
+             width: {1,2}, cap: {0}, join: {2,3}, dash: IF Mode = "randd" THEN {1, 2} ELSE {0}, off: IF Mode = "randd" THEN {0, 1} ELSE {0}, rule: 0..3, img: {0},
              z: {0, 0, -1, 3}]                \* C14 scenes; z = canvas z-index set before the draw (sparse and negative values)
 \* a draw without fill and stroke records nothing (Context.DrawPath returns): repaired to a black fill
 \* (a dash offset without a dash array is kept out of the bulk programs: the pdf back-end does not terminate on a negative one --
